@@ -31,7 +31,7 @@ Proof.
 Qed.
 
 Section Witness.
-Let F2 := second_order_ff RO 1 0 [[0];[0]] [w_I1;w_I1] [w_I1;w_I1;w_I1] [0] [w_iC] [w_I1] [[1;1]] [1;1] [0;1;2] (None,None).
+Let F2 := second_order_ff RO 1 0 0 [[0];[0]] [w_I1;w_I1] [w_I1;w_I1;w_I1] [0] [w_iC] [w_I1] [[1;1]] [1;1] [0;1;2] (None,None).
 Let Bm := control_matrix_from_scratch RO 1 0 [[0];[0]] [w_I1;w_I1] [w_I1;w_I1;w_I1] [0] [w_iC] [w_I1] [[1;1]] [1;1] [0;1;2].
 
 Lemma w_F2 : a5get RO F2 0 0 0 0 0 = 0c.
@@ -41,7 +41,8 @@ Proof.
   rewrite !so_same_get by (simpl; lia).
   cbn [map nth]. unfold same_sum, S2. rewrite !csumn1. rewrite !t4get_soi_tab by lia. rewrite !soi_entry_core.
   unfold vg, vget. cbn [nth].
-  replace (0 - 0 - 0) with 0 by ring. replace (0 + (0 - 0)) with 0 by ring. rewrite !soi_core_case3.
+  replace (0 - 0 - 0) with 0 by ring. replace (0 + (0 - 0)) with 0 by ring.
+  rewrite !soi_core_regular by (try lra; left; reflexivity). rewrite !soi_core_case3.
   rewrite !w_X. pose proof (w_step 0) as H0. pose proof (w_step 1) as H1. unfold vg, vget in H0, H1. cbn [nth] in H0, H1.
   rewrite H0, H1. apply c_eq; simpl; field.
 Qed.
@@ -62,7 +63,7 @@ Theorem F2_plus_adjoint_needs_hermitian :
   let ncoeffs := [[1;1]] in let dts := [1;1] in let ts := [0;1;2] in
   0 <= thr /\ (forall N, In N nopers -> fherm d (toF N)) /\
   length evs = length dts /\ length Vs = length dts /\ (length dts <= length Qs)%nat /\ (length dts <= length ts)%nat /\
-  length ncoeffs = length nopers /\ no_taylor d thr omega evs dts 0 /\
+  length ncoeffs = length nopers /\ no_taylor d omega thr evs dts 0 /\
   cadd' (a5get RO F2 0 0 0 0 0) (cconj' (a5get RO F2 0 0 0 0 0)) <>
   cmul' (cconj' (a3get RO Bm 0 0 0)) (a3get RO Bm 0 0 0).
 Proof.
